@@ -75,7 +75,9 @@ class PatternToken(RegexpBaseToken):
     ~ - cancels pattern effect if placed before ? or * (cancels effect only for next symbol, but not for all)
     Would be useful to recognize argument in function e.g =COUNTIFS(A3:B3; "???le") or =COUNTIFS(A4:B7; "a*")
     """
-    regexp = r'\"([^\"]*(?<![~])[?*]+[^\"]*)\"'
+    # a quoted text holding a ? or * that no ~ stands before. Every character before that wildcard can be read in one way only, so
+    # a text without its closing quote is refused in linear time ("**** ... without an end took minutes: three overlapping repeats)
+    regexp = r'\"((?:[^\"?*]|(?<=~)[?*])*(?<!~)[?*][^\"]*)\"'
 
 
 # TODO добавить условие для локализации
